@@ -130,3 +130,139 @@ pub fn corpus() -> Vec<String> {
     out.retain(|s| lib_parse(s).is_ok());
     out
 }
+
+/// Every value of every atomic field of the grammar (years, weeks, months, days of month, weekdays
+/// and nth positions, clock times up to 48:00, repeats, event offsets, day offsets, steps), one
+/// field per one-rule expression. Shared by C05 (parse), C06 (print), C07/C13 (normalize).
+pub fn atomic_asts() -> Vec<OpeningHoursExpression> {
+    use chrono::Duration;
+    use crate::gen::expr::{et, EVENTS, MONTHS, WEEKDAYS};
+    use opening_hours_syntax::rules::day::*;
+    use opening_hours_syntax::rules::time::*;
+    use opening_hours_syntax::rules::{RuleKind, RuleOperator, RuleSequence};
+    let rule = |ds: DaySelector, ts: Vec<TimeSpan>| OpeningHoursExpression {
+        rules: vec![RuleSequence { day_selector: ds, time_selector: TimeSelector { time: ts }, kind: RuleKind::Open, operator: RuleOperator::Normal, comments: Default::default() }],
+    };
+    let span = |a: ExtendedTimeAlias, b: ExtendedTimeAlias| TimeSpan { range: Time::Fixed(a)..Time::Fixed(b), open_end: false, repeats: None };
+    let hours = vec![span(et(10, 0), et(12, 0))];
+    // (a rule without hours is built by the parser with the whole-day span)
+    let full = vec![span(et(0, 0), et(24, 0))];
+    let mut all: Vec<OpeningHoursExpression> = Vec::new();
+    // years: single, open-ended, range from 1900, range to 9999; steps
+    for y in 1900..=9999u16 {
+        all.push(rule(DaySelector { year: vec![YearRange { range: Year(y)..=Year(y), step: 1 }], ..Default::default() }, full.clone()));
+        all.push(rule(DaySelector { year: vec![YearRange { range: Year(y)..=Year(9999), step: 1 }], ..Default::default() }, hours.clone()));
+        if y > 1900 {
+            all.push(rule(DaySelector { year: vec![YearRange { range: Year(1900)..=Year(y), step: 1 }], ..Default::default() }, full.clone()));
+        }
+    }
+    for step in 2..=65535u16 {
+        all.push(rule(DaySelector { year: vec![YearRange { range: Year(1950)..=Year(9000), step }], ..Default::default() }, if step % 2 == 0 { full.clone() } else { hours.clone() }));
+    }
+    // weeks: every pair, every step
+    for a in 1..=53u8 {
+        for b in 1..=53u8 {
+            all.push(rule(DaySelector { week: vec![WeekRange { range: WeekNum(a)..=WeekNum(b), step: 1 }], ..Default::default() }, if (a + b) % 2 == 0 { full.clone() } else { hours.clone() }));
+        }
+    }
+    for step in 2..=255u8 {
+        all.push(rule(DaySelector { week: vec![WeekRange { range: WeekNum(2)..=WeekNum(50), step }], ..Default::default() }, full.clone()));
+    }
+    // months: every pair, with and without a year; every day of every month, alone and as range ends
+    for (i, a) in MONTHS.iter().enumerate() {
+        for (j, b) in MONTHS.iter().enumerate() {
+            all.push(rule(DaySelector { monthday: vec![MonthdayRange::Month { range: *a..=*b, year: None }], ..Default::default() }, full.clone()));
+            all.push(rule(DaySelector { monthday: vec![MonthdayRange::Month { range: *a..=*b, year: Some(1900 + (i * 12 + j) as u16 * 56) }], ..Default::default() }, hours.clone()));
+        }
+        for day in 1..=31u8 {
+            let d = Date::Fixed { year: None, month: *a, day };
+            let dy = Date::Fixed { year: Some(2000 + day as u16), month: *a, day };
+            let none = DateOffset::default();
+            all.push(rule(DaySelector { monthday: vec![MonthdayRange::Date { start: (d, none), end: (d, none) }], ..Default::default() }, full.clone()));
+            all.push(rule(DaySelector { monthday: vec![MonthdayRange::Date { start: (dy, none), end: (dy, none) }], ..Default::default() }, full.clone()));
+            for b in [MONTHS[(i + 1) % 12], MONTHS[(i + 6) % 12], *a] {
+                for day2 in [1u8, 15, 28, 31, day] {
+                    let e = Date::Fixed { year: None, month: b, day: day2 };
+                    if e != d {
+                        all.push(rule(DaySelector { monthday: vec![MonthdayRange::Date { start: (d, none), end: (e, none) }], ..Default::default() }, full.clone()));
+                    }
+                    // dated start, end in the same or in the next year
+                    for y2 in [2000 + day as u16, 2001 + day as u16] {
+                        let e = Date::Fixed { year: Some(y2), month: b, day: day2 };
+                        if e != dy {
+                            all.push(rule(DaySelector { monthday: vec![MonthdayRange::Date { start: (dy, none), end: (e, none) }], ..Default::default() }, full.clone()));
+                        }
+                    }
+                }
+            }
+        }
+    }
+    // day offsets and weekday offsets of dates
+    for n in (-400..=400i64).filter(|n| *n != 0) {
+        let d = Date::Fixed { year: None, month: Month::May, day: 17 };
+        let o = DateOffset { wday_offset: WeekDayOffset::None, day_offset: n };
+        all.push(rule(DaySelector { monthday: vec![MonthdayRange::Date { start: (d, o), end: (d, o) }], ..Default::default() }, full.clone()));
+        let e = Date::Easter { year: if n % 2 == 0 { None } else { Some(2024) } };
+        all.push(rule(DaySelector { monthday: vec![MonthdayRange::Date { start: (e, o), end: (e, o) }], ..Default::default() }, full.clone()));
+    }
+    for wd in WEEKDAYS {
+        for o in [WeekDayOffset::Next(wd), WeekDayOffset::Prev(wd)] {
+            let d = Date::Fixed { year: None, month: Month::October, day: 3 };
+            let o = DateOffset { wday_offset: o, day_offset: 0 };
+            all.push(rule(DaySelector { monthday: vec![MonthdayRange::Date { start: (d, o), end: (d, o) }], ..Default::default() }, full.clone()));
+        }
+    }
+    // weekdays: every pair; every non-empty set of nth positions; offsets
+    for a in WEEKDAYS {
+        for b in WEEKDAYS {
+            all.push(rule(DaySelector { weekday: vec![WeekDayRange::Fixed { range: a..=b, offset: 0, nth_from_start: [true; 5], nth_from_end: [true; 5] }], ..Default::default() }, hours.clone()));
+        }
+        for bits in 1..1023u32 {
+            let mut s = [false; 5];
+            let mut e = [false; 5];
+            for k in 0..5 {
+                s[k] = bits & (1 << k) != 0;
+                e[k] = bits & (1 << (5 + k)) != 0;
+            }
+            let offset = match bits % 7 {
+                0 => 1,
+                1 => -1,
+                2 => (bits as i64 % 40) + 2,
+                3 => -((bits as i64 % 40) + 2),
+                _ => 0,
+            };
+            all.push(rule(DaySelector { weekday: vec![WeekDayRange::Fixed { range: a..=a, offset, nth_from_start: s, nth_from_end: e }], ..Default::default() }, full.clone()));
+        }
+    }
+    // (the grammar gives a day offset to PH only)
+    all.push(rule(DaySelector { weekday: vec![WeekDayRange::Holiday { kind: HolidayKind::School, offset: 0 }], ..Default::default() }, full.clone()));
+    for offset in -400..=400i64 {
+        all.push(rule(DaySelector { weekday: vec![WeekDayRange::Holiday { kind: HolidayKind::Public, offset }], ..Default::default() }, full.clone()));
+    }
+    // clock times: every minute as a start, every minute up to 48:00 as an end; open ends; repeats
+    for m in 0..=1440u16 {
+        all.push(rule(Default::default(), vec![span(et((m / 60) as u8, (m % 60) as u8), et(48, 0))]));
+        all.push(rule(Default::default(), vec![TimeSpan { range: Time::Fixed(et((m / 60) as u8, (m % 60) as u8))..Time::Fixed(ExtendedTime::MIDNIGHT_24), open_end: true, repeats: None }]));
+    }
+    for m in 1..=2880u16 {
+        all.push(rule(Default::default(), vec![span(et(0, 0), et((m / 60) as u8, (m % 60) as u8))]));
+    }
+    for m in 1..=1440i64 {
+        all.push(rule(Default::default(), vec![TimeSpan { range: Time::Fixed(et(1, 0))..Time::Fixed(et(30, 0)), open_end: false, repeats: Some(Duration::minutes(m)) }]));
+    }
+    // event offsets: every minute within a day in both directions, at both ends of a span
+    for ev in EVENTS {
+        for off in -1440..=1440i16 {
+            let v = Time::Variable(VariableTime { event: ev, offset: off });
+            if off % 2 == 0 {
+                all.push(rule(Default::default(), vec![TimeSpan { range: v..Time::Fixed(et(26, 30)), open_end: false, repeats: None }]));
+            } else {
+                all.push(rule(Default::default(), vec![TimeSpan { range: Time::Fixed(et(0, 30))..v, open_end: false, repeats: None }]));
+            }
+        }
+    }
+    all
+}
+
+type ExtendedTimeAlias = opening_hours_syntax::ExtendedTime;
+use opening_hours_syntax::ExtendedTime;
